@@ -9,6 +9,7 @@ import Mathlib.Tactic.FieldSimp
 import Mathlib.Tactic.Ring
 
 set_option linter.unusedSectionVars false
+set_option linter.unusedSimpArgs false
 
 namespace IrisVerif.Seq
 open IrisVerif.Gen
@@ -491,5 +492,214 @@ theorem pairwise_equationsDates (R : Int × Nat → Int × Nat → Prop) (cols :
     exact h t ht t' ht' i j (List.mem_range.mp hi) (List.mem_range.mp hj) (Or.inl hij)
 
 end orders
+
+/-! ### databox merge, extent of the data array, converses for the execution orders -/
+
+section merge
+variable {κ ν : Type} [DecidableEq κ]
+
+theorem Dict.lookup_set1 (d : Dict κ ν) (k k' : κ) (v : ν) :
+    (Dict.set1 d k v).lookup k' = if k' = k then some v else d.lookup k' := by
+  induction d with
+  | nil =>
+    by_cases h : k' = k
+    · simp [Dict.set1, List.lookup, h]
+    · have : (k' == k) = false := by simpa using h
+      simp [Dict.set1, List.lookup, h, this]
+  | cons p rest ih =>
+    obtain ⟨pk, pv⟩ := p
+    simp only [Dict.set1]
+    by_cases hp : pk = k
+    · subst hp
+      by_cases h : k' = pk
+      · simp [List.lookup, h]
+      · have : (k' == pk) = false := by simpa using h
+        simp [List.lookup, h, this]
+    · simp only [hp, if_false, List.lookup]
+      by_cases h' : k' = pk
+      · have hk : k' ≠ k := fun e => hp (h'.symm.trans e)
+        simp [h', hk]
+        subst h'; simp [hk]
+      · have : (k' == pk) = false := by simpa using h'
+        simp only [this, ih]
+
+/-- the value the LAST binding of `k` in `l` gives (Python: later assignments win) -/
+def Dict.last? (l : Dict κ ν) (k : κ) : Option ν :=
+  match l with
+  | [] => none
+  | p :: rest => (Dict.last? rest k).or (if p.1 = k then some p.2 else none)
+
+theorem Dict.lookup_update (d other : Dict κ ν) (k : κ) :
+    (Dict.update d other).lookup k = (Dict.last? other k).or (d.lookup k) := by
+  induction other generalizing d with
+  | nil => simp [Dict.update, Dict.last?]
+  | cons p rest ih =>
+    have ih' := ih (Dict.set1 d p.1 p.2)
+    simp only [Dict.update, List.foldl_cons] at ih' ⊢
+    rw [ih', Dict.lookup_set1, Dict.last?]
+    by_cases h : k = p.1
+    · subst h; cases Dict.last? rest p.1 <;> simp
+    · have h' : ¬ p.1 = k := fun e => h e.symm
+      cases Dict.last? rest k <;> simp [h, h']
+
+/-- with distinct keys the last binding is the only one -/
+theorem Dict.last?_eq_lookup (l : Dict κ ν) (k : κ) (h : l.Pairwise (fun a b => a.1 ≠ b.1)) :
+    Dict.last? l k = l.lookup k := by
+  induction l with
+  | nil => rfl
+  | cons p rest ih =>
+    obtain ⟨h1, h2⟩ := List.pairwise_cons.mp h
+    rw [Dict.last?, ih h2]
+    by_cases hk : p.1 = k
+    · subst hk
+      have : rest.lookup p.1 = none := by
+        rw [List.lookup_eq_none_iff]
+        intro q hq
+        simpa using (h1 q hq)
+      simp [this, List.lookup]
+    · have : (k == p.1) = false := by simpa using fun e : k = p.1 => hk e.symm
+      simp [hk, List.lookup, this]
+
+/-- keys of `d.set1 k v`: unchanged when `k` is present, `k` appended otherwise -/
+theorem Dict.keys_set1 (d : Dict κ ν) (k : κ) (v : ν) :
+    (Dict.set1 d k v).map (·.1) = if k ∈ d.map (·.1) then d.map (·.1) else d.map (·.1) ++ [k] := by
+  induction d with
+  | nil => simp [Dict.set1]
+  | cons p rest ih =>
+    simp only [Dict.set1]
+    by_cases hp : p.1 = k
+    · simp [hp]
+    · have hk : ¬ k = p.1 := fun e => hp e.symm
+      simp only [hp, if_false, List.map_cons, ih, List.mem_cons, hk, false_or]
+      split <;> simp
+
+/-- key order after `update`: the keys of `d` first, in their order; then the new keys of `other` in order of first appearance -/
+theorem Dict.keys_update (d other : Dict κ ν) :
+    (Dict.update d other).map (·.1)
+      = other.foldl (fun ks p => if p.1 ∈ ks then ks else ks ++ [p.1]) (d.map (·.1)) := by
+  induction other generalizing d with
+  | nil => rfl
+  | cons p rest ih =>
+    have ih' := ih (Dict.set1 d p.1 p.2)
+    simp only [Dict.update, List.foldl_cons] at ih' ⊢
+    rw [ih', Dict.keys_set1]
+
+theorem Dict.keys_prefix_update (d other : Dict κ ν) :
+    d.map (·.1) <+: (Dict.update d other).map (·.1) := by
+  rw [Dict.keys_update]
+  generalize d.map (·.1) = ks
+  induction other generalizing ks with
+  | nil => exact List.prefix_refl _
+  | cons p rest ih =>
+    simp only [List.foldl_cons]
+    split
+    · exact ih ks
+    · exact (List.prefix_append ks [p.1]).trans (ih _)
+
+end merge
+
+section extent
+variable {β : Type}
+
+theorem foldl_min_le (l : List (Nat × Int)) (m : Int) :
+    l.foldl (fun m tok => min m tok.2) m ≤ m ∧ ∀ tok ∈ l, l.foldl (fun m tok => min m tok.2) m ≤ tok.2 := by
+  induction l generalizing m with
+  | nil => simp
+  | cons a rest ih =>
+    obtain ⟨h1, h2⟩ := ih (min m a.2)
+    simp only [List.foldl_cons, List.mem_cons, forall_eq_or_imp]
+    refine ⟨by omega, by omega, h2⟩
+
+theorem le_foldl_max (l : List (Nat × Int)) (m : Int) :
+    m ≤ l.foldl (fun m tok => max m tok.2) m ∧ ∀ tok ∈ l, tok.2 ≤ l.foldl (fun m tok => max m tok.2) m := by
+  induction l generalizing m with
+  | nil => simp
+  | cons a rest ih =>
+    obtain ⟨h1, h2⟩ := ih (max m a.2)
+    simp only [List.foldl_cons, List.mem_cons, forall_eq_or_imp]
+    refine ⟨by omega, by omega, h2⟩
+
+theorem minShift_le (eqs : List (Equation β)) (eq : Equation β) (h : eq ∈ eqs) (tok : Nat × Int)
+    (ht : tok ∈ eq.depTokens) : minShift eqs ≤ tok.2 ∧ minShift eqs ≤ 0 := by
+  unfold minShift
+  have := foldl_min_le (eqs.flatMap Equation.depTokens) 0
+  exact ⟨this.2 tok (List.mem_flatMap.mpr ⟨eq, h, ht⟩), this.1⟩
+
+theorem le_maxShift (eqs : List (Equation β)) (eq : Equation β) (h : eq ∈ eqs) (tok : Nat × Int)
+    (ht : tok ∈ eq.depTokens) : tok.2 ≤ maxShift eqs ∧ 0 ≤ maxShift eqs := by
+  unfold maxShift
+  have := le_foldl_max (eqs.flatMap Equation.depTokens) 0
+  exact ⟨this.2 tok (List.mem_flatMap.mpr ⟨eq, h, ht⟩), this.1⟩
+
+end extent
+
+section converse
+variable {β : Type}
+
+/-- in a strictly increasing list, a smaller member comes before a larger one -/
+theorem pairwise_of_lt {α : Type} (lt S : α → α → Prop) (hirr : ∀ a b, lt a b → lt b a → False) (l : List α)
+    (h1 : l.Pairwise lt) (h2 : l.Pairwise S) : ∀ a ∈ l, ∀ b ∈ l, lt a b → S a b := by
+  induction l with
+  | nil => simp
+  | cons x rest ih =>
+    obtain ⟨hx1, hr1⟩ := List.pairwise_cons.mp h1
+    obtain ⟨hx2, hr2⟩ := List.pairwise_cons.mp h2
+    intro a ha b hb hab
+    rcases List.mem_cons.mp ha with rfl | ha' <;> rcases List.mem_cons.mp hb with rfl | hb'
+    · exact absurd hab (fun h => hirr _ _ h h)
+    · exact hx2 b hb'
+    · exact absurd (hx1 a ha') (fun h => hirr _ _ h hab)
+    · exact ih hr1 hr2 a ha' b hb' hab
+
+/-- converse of `pairwise_datesEquations` -/
+theorem of_pairwise_datesEquations (R : Int × Nat → Int × Nat → Prop) (cols : List Int) (n : Nat)
+    (hcols : cols.Pairwise (· < ·)) (h : (datesEquations cols n).Pairwise R) :
+    ∀ t ∈ cols, ∀ t' ∈ cols, ∀ i j, i < n → j < n → (t < t' ∨ (t = t' ∧ i < j)) → R (t, i) (t', j) := by
+  unfold datesEquations at h
+  rw [List.pairwise_flatMap] at h
+  obtain ⟨h1, h2⟩ := h
+  intro t ht t' ht' i j hi hj hord
+  rcases hord with hlt | ⟨rfl, hij⟩
+  · exact pairwise_of_lt (· < ·) _ (fun a b h1 h2 => by omega) cols hcols h2 t ht t' ht' hlt (t, i)
+      (List.mem_map.mpr ⟨i, List.mem_range.mpr hi, rfl⟩) (t', j) (List.mem_map.mpr ⟨j, List.mem_range.mpr hj, rfl⟩)
+  · have := h1 t ht
+    rw [List.pairwise_map] at this
+    exact pairwise_of_lt (· < ·) _ (fun a b h1 h2 => by omega) (List.range n) List.pairwise_lt_range this
+      i (List.mem_range.mpr hi) j (List.mem_range.mpr hj) hij
+
+/-- converse of `pairwise_equationsDates` -/
+theorem of_pairwise_equationsDates (R : Int × Nat → Int × Nat → Prop) (cols : List Int) (n : Nat)
+    (hcols : cols.Pairwise (· < ·)) (h : (equationsDates cols n).Pairwise R) :
+    ∀ t ∈ cols, ∀ t' ∈ cols, ∀ i j, i < n → j < n → (i < j ∨ (i = j ∧ t < t')) → R (t, i) (t', j) := by
+  unfold equationsDates at h
+  rw [List.pairwise_flatMap] at h
+  obtain ⟨h1, h2⟩ := h
+  intro t ht t' ht' i j hi hj hord
+  rcases hord with hlt | ⟨rfl, htt⟩
+  · exact pairwise_of_lt (· < ·) _ (fun a b h1 h2 => by omega) (List.range n) List.pairwise_lt_range h2
+      i (List.mem_range.mpr hi) j (List.mem_range.mpr hj) hlt (t, i)
+      (List.mem_map.mpr ⟨t, ht, rfl⟩) (t', j) (List.mem_map.mpr ⟨t', ht', rfl⟩)
+  · have := h1 i (List.mem_range.mpr hi)
+    rw [List.pairwise_map] at this
+    exact pairwise_of_lt (· < ·) _ (fun a b h1 h2 => by omega) cols hcols this t ht t' ht' htt
+
+/-- the LHS cell of a step is always among its writes -/
+theorem lhs_mem_stepWrites (eqs : List (Equation β)) (plan : Plan) (s : Int × Nat) (eq : Equation β)
+    (h : eqs[s.2]? = some eq) : (eq.lhs, s.1) ∈ stepWrites eqs plan s := by
+  simp [stepWrites, h]
+
+/-- a token of equation `i` that points from column `t` at the LHS row of equation `j` puts that LHS cell among the reads of
+step `(t, i)`, where step `(t + shift, j)` writes it: the two steps clobber unless `(t + shift, j)` runs first -/
+theorem clobber_of_token (eqs : List (Equation β)) (plan : Plan) (i j : Nat) (ei ej : Equation β) (t : Int)
+    (tok : Nat × Int) (hei : eqs[i]? = some ei) (hej : eqs[j]? = some ej) (htok : tok ∈ ei.depTokens)
+    (hrow : tok.1 = ej.lhs) : ¬ NoClobber eqs plan (t, i) (t + tok.2, j) := by
+  intro h
+  have hw := lhs_mem_stepWrites eqs plan (t + tok.2, j) ej hej
+  have := (h _ hw).1
+  apply this
+  simp only [stepDeps, hei, Equation.deps_eq_map, List.mem_map]
+  exact ⟨tok, htok, by rw [hrow]⟩
+
+end converse
 
 end IrisVerif.Seq
